@@ -71,9 +71,14 @@ impl SatSolver for BufferedSatSolver {
         self.listeners
             .iter()
             .for_each(|l| l.solving_start(self.n_vars(), self.n_clauses));
+        // assumptions may involve variables that appear in no clause
+        let n_vars = assumptions
+            .iter()
+            .map(|a| usize::from(a.var()))
+            .fold(self.n_vars, usize::max);
         let preamble = format!(
             "p cnf {} {}\n",
-            self.n_vars,
+            n_vars,
             self.n_clauses + assumptions.len()
         );
         let assumptions =
@@ -92,7 +97,7 @@ impl SatSolver for BufferedSatSolver {
         let solver_output = BufReader::new((self.solving_fn)(instance_reader));
         let context = "error while reading solving function output in BufferedSatSolver";
         let mut status = None;
-        let mut assignment = vec![None; self.n_vars];
+        let mut assignment = vec![None; n_vars];
         let mut assignment_line_seen = false;
         let mut assignment_line_end = false;
         for line in solver_output.lines().map(|r| match r {
@@ -124,7 +129,7 @@ impl SatSolver for BufferedSatSolver {
                         }
                     } else {
                         let v = n.unsigned_abs() - 1;
-                        if v >= self.n_vars {
+                        if v >= n_vars {
                             panic!("{}: a variable in value line is out of bounds", context)
                         }
                         assignment[v] = Some(n > 0);
